@@ -96,6 +96,49 @@ fn probe<L: LayoutTrait + GenericLayoutTrait>(h: &crate::tamper::Honest, rng: &m
             rep.inc(&format!("bound_although_not_required.{lay}.{}", label.split(' ').next().unwrap_or("")));
         }
     }
+    // ---- the converse: a field the composition evaluation DEPENDS on but the Fiat-Shamir seed does NOT
+    // absorb is a number the prover may pick after seeing the challenges. The only such field is the
+    // `prod` of a continuous page header (it multiplies into the public-memory product; get_hash absorbs
+    // start, size and hash only) - so a public input carrying a page header must be refused by the
+    // layout's validate_public_input or verify_public_input.
+    {
+        use swiftness_air::types::ContinuousPageHeader;
+        let hdr = |prod: Felt| ContinuousPageHeader { start_address: Felt::from(1u64 << 40), size: Felt::ZERO, hash: Felt::from(7u64), prod };
+        let with = |prod: Felt| {
+            let mut p = clone_pi(&h.proof.public_input);
+            p.continuous_page_headers.push(hdr(prod));
+            p
+        };
+        let (r1, r2) = (rng.felt(), rng.felt());
+        let (p1, p2) = (with(r1), with(r2));
+        let nf = cfg.n_verifier_friendly_commitment_layers;
+        let same_digest = catch(|| p1.get_hash(nf) == p2.get_hash(nf)).unwrap_or(false);
+        let mut tr = Transcript::new(rng.felt());
+        let tc = L::traces_commit(&mut tr, &h.proof.unsent_commitment.traces, cfg.traces.clone());
+        let mask: Vec<Felt> = (0..L::MASK_SIZE).map(|_| rng.felt()).collect();
+        let coefs: Vec<Felt> = (0..L::N_CONSTRAINTS).map(|_| rng.felt()).collect();
+        let z = rng.felt();
+        let ev = |pi: &PublicInput| catch(|| L::eval_composition_polynomial(&tc.interaction_elements, pi, &mask, &coefs, &z, &doms.trace_domain_size, &doms.trace_generator).ok()).ok().flatten();
+        let evaluation_differs = match (ev(&p1), ev(&p2)) {
+            (Some(a), Some(b)) => a != b,
+            _ => false,
+        };
+        rep.case(&format!("{lay}|page header prod"), true);
+        rep.inc("unabsorbed_field_probes");
+        if same_digest && evaluation_differs {
+            rep.inc("page_header_prod.outside_digest_but_in_the_evaluation");
+            let refused = catch(|| L::validate_public_input(&p1, &doms).is_err() || L::verify_public_input(&p1).is_err()).unwrap_or(true);
+            if !refused {
+                rep.violation(
+                    &format!("C01|unabsorbed-statement-field-accepted|{lay}|continuous_page_headers.prod"),
+                    &format!("layout {lay}: a public input with a continuous page header passes validate_public_input and verify_public_input although the header's `prod` enters the memory-product boundary value and is not absorbed into the Fiat-Shamir seed (the prover can choose it after the challenges)"),
+                    json!({"layout": lay, "field": "continuous_page_headers[0].prod"}),
+                );
+            }
+        } else {
+            rep.inc("page_header_prod.absorbed_or_unused");
+        }
+    }
     if rep.samples.len() < 3 {
         let bound: Vec<&String> = fields.iter().enumerate().filter(|(i, _)| changed[*i] == envs).map(|(_, f)| &f.0).collect();
         rep.sample(json!({"layout": lay, "environments": envs, "fields_probed": fields.len(), "bound": bound}));
